@@ -820,9 +820,11 @@ func replayFile(path string, w *bufio.Writer, root string) {
 			x = newRun(w, rand.New(rand.NewSource(1)), fmt.Sprintf("%s/r%d", root, t), boot, len(all)-len(boot), kv["family"], hist)
 		case "STEP":
 			if x != nil && f[2] != "INIT" {
+				optional := strings.HasPrefix(f[2], "?") // "?REPLY @IS:1>0": skip the step if no such call is live
+				f[2] = strings.TrimPrefix(f[2], "?")
 				l, ok := x.resolve(f[2:])
-				if !ok && f[2] == "FAIL" {
-					continue // nothing left to fail
+				if !ok && (f[2] == "FAIL" || optional) {
+					continue // nothing left to fail / optional step
 				}
 				if !ok {
 					x.emit("HARNESS-ERROR script refers to a call that does not exist: %s", strings.Join(f[2:], " "))
